@@ -317,6 +317,12 @@ CLAIMS.update({
                 'RoundOk = receiver established, Room, InSync (sender cumulative ack point not ahead of the receiver\'s; when equal the lowest outstanding chunk is not gap-acked), HeadOk (no ABORT in answer to the first delivery); evaluated true on every round of the example. '
                 'STILL OPEN, so the drain theorem keeps _partial and its hypothesis TakenN: the glue RoundOk -> Taken (first delivery of the round = that chunk into that receiver state; frames of chunksStart / chunksEnd), Honest -> InSync as a run invariant (proved towards it: markGaps_acked, gather_ackedFrom), '
                 'Room from FitsBuffer (maxMessageSize <= maxReceiveBufferSize) after the application read everything - needs the converse of Reasm.OrdInv.pushed, which would also give reads = writes at the end (C02_netsys_all_read is NOT stated), and HeadOk from maxReassemblyQueueEntries = 0. '
+                'THIRD PASS (Proofs/NetSys/Live{Glue,RoundOk,Honest}.lean): the glue is proved - C02_netsys_roundok_taken: RoundOk P s (receiver established, Room, InSync, no ABORT on the first delivery) and something outstanding give Taken P s, '
+                'over Reliable runs with InfFit; and C02_netsys_drains_roundok: n >= pending + in-flight healed rounds with RoundOkN (those four readable premises at the start of every round that has something outstanding) leave both sender queues empty and all buffered amounts 0 - '
+                'the opaque TakenN hypothesis of C02_netsys_drains_partial is gone. C02_netsys_honest_insync: for every run whose sender only processed SOUND SACKs (Honest: cumulative TSN not ahead of the receiver, gap blocks name only TSNs at or below its cumulative point or held - '
+                'what C05_assoc_sack_sound proves of every SACK the real receiver emits; delayed / duplicated / reordered SACKs stay sound), with TsnOk, InSync holds whenever the receive queue is pop-normalised (run invariant run_hl: every gap-acked in-flight chunk was really received); '
+                'C02_netsys_honest_taken: one round with InSync replaced by Honest. STILL OPEN: iterating the honest step over the healed rounds (step_hl is the step lemma; the truthful SACK is sound), Room from FitsBuffer after the reads and reads = writes at the end (both need the converse of Reasm.OrdInv.pushed; '
+                'C02_netsys_all_read is NOT stated), HeadOk / pop-normalised queue from maxReassemblyQueueEntries = 0 (they fail only after a reassembly error, when the receiver is about to ABORT). '
                 'C02_netsys_stuck_witness (decide): with a receive buffer of two maximal chunks and a 3-chunk message the fault-free healed rounds NEVER deliver - acceptPayloadData drops the third chunk at a full buffer, the '
                 'incomplete message cannot be read, credit stays 0 - so "buffer >= one maximal chunk + application reads" is not enough; every message in progress must fit the receive buffer (maxMessageSize <= maxReceiveBufferSize; '
                 'true for the defaults 64 KiB / 1 MiB, not enforced by Config). '
